@@ -6,6 +6,7 @@ from .common import *
 from ..terms import sym, term_str, NF, subst_term, subterms, simp
 from ..ratfun import RF
 from ..values import *
+from ..interp import State
 from .c07 import lanes_of, poly_value
 from .c11 import state_xy
 
@@ -63,6 +64,281 @@ def check_piece(piece_abs, k0x, k0y, k1x, k1y):
     return probs
 
 
+def pairs_source(it, st, src, K):
+    """is the stream a walk over the consecutive pairs (knots[ι], knots[ι+1]), ι = 0 … len−2, in order?
+    (zip(knots, knots[1..]) / zip(knots.iter(), knots.iter().skip(1)), possibly under map/cloned/enumerate)"""
+    s = src
+    while isinstance(s, Stream) and s.kind in ('map', 'cloned', 'scan', 'enumerate'):
+        s = s.parts[0]
+    if isinstance(s, Stream) and s.kind == 'windows' and s.parts[1] == ('ic', 2) and isinstance(s.parts[0], SliceRef):
+        sl = s.parts[0]
+        try:
+            b0 = it.read(st, sl.root, sl.path)
+        except Unsupported:
+            return False
+        return isinstance(b0, SeqSym) and b0.name == K[1] and sl.start == ('ic', 0) and sl.end == ('len', K)
+    if not (isinstance(s, Stream) and s.kind == 'zip'):
+        return False
+
+    def view(x):
+        skip = 0
+        while isinstance(x, Stream) and x.kind in ('cloned', 'skip'):
+            if x.kind == 'skip':
+                if x.parts[1][0] != 'ic':
+                    return None
+                skip += x.parts[1][1]
+            x = x.parts[0]
+        if isinstance(x, Stream) and x.kind == 'src' and isinstance(x.parts[0], SliceRef):
+            sl = x.parts[0]
+            try:
+                b0 = it.read(st, sl.root, sl.path)
+            except Unsupported:
+                return None
+            if isinstance(b0, SeqSym) and b0.name == K[1] and sl.start[0] == 'ic' and sl.end == ('len', K):
+                return sl.start[1] + skip
+        return None
+    a, b = view(s.parts[0]), view(s.parts[1])
+    return a == 0 and b == 1
+
+
+def general_recurrence(cx, rep, inst, file, line, flin, it, st, seq, K):
+    """The recurrence of linear(), whatever carries it (a knot, only the previous abscissa, the last piece pushed…):
+    with L, R the left / right knot that piece ι is built on (recovered by matching the piece against the summary of the
+    segment helper),   L(0) = knots[0];   R = (max(L.x, knots[ι+1].x), knots[ι+1].y);   L(ι+1) = R(ι);   end = R.x."""
+    from ..terms import match_term, mk_not
+    fseg = helper_by_role(cx.facts, flin, ['poly::Knot', 'poly::Knot'], ('piecewise::Segment', 'poly::Poly1'), 'linear::segment')
+    if fseg is None or not isinstance(seq, SeqScan):
+        rep.ob('force', inst, False, 'carried state is not one knot (x, y), and there is no segment helper to recover the knots from', fn=inst, file=file, line=line)
+        return
+    a = cx.analyse(fseg, arg_names=['knot0', 'knot1'])
+    pat = a.it.abstract(a.state, a.ret)
+    vars_ = {sym(n_) for n_ in ('knot0.x', 'knot0.y', 'knot1.x', 'knot1.y')}
+    i = seq.ivar
+    got = it.abstract(st, seq.out)
+    binds = {}
+    if not (match_term(pat, got, binds, vars_) and len(binds) == 4):
+        rep.ob('force', inst, False, 'a piece is not segment(left knot, right knot)', fn=inst, file=file, line=line,
+               msg='a piece of linear() is not the segment helper applied to two knots')
+        return
+    Lx, Ly, Rx, Ry = (binds[sym(n_)] for n_ in ('knot0.x', 'knot0.y', 'knot1.x', 'knot1.y'))
+    syms = [fv for (_loc, fv) in seq.state_syms]
+    nf = NF()
+    one = ('ic', 1)
+    kx0, ky0 = ('elem', K, ('ic', 0), 'x'), ('elem', K, ('ic', 0), 'y')
+    kx1, ky1 = ('elem', K, it.iadd(i, one), 'x'), ('elem', K, it.iadd(i, one), 'y')
+
+    def canon(t):
+        m = {}
+        for x in subterms(t):
+            if x[0] == 'elem' and x[1] == K:
+                for want in (('ic', 0), i, it.iadd(i, one), it.iadd(i, ('ic', 2))):
+                    if x[2] != want and nf(x[2]).equals(nf(want)):
+                        m[x] = ('elem', K, want, x[3])
+        return subst_term(t, m) if m else t
+
+    def at_zero(t):
+        zero = {('icmp', 'eq', i, ('ic', 0)): True, ('icmp', 'ne', i, ('ic', 0)): False, ('icmp', 'lt', ('ic', 0), i): False,
+                ('icmp', 'gt', i, ('ic', 0)): False}
+        t = simp(t, zero)
+        t = subst_term(t, dict(zip(syms, seq.init)))
+        return canon(subst_term(t, {i: ('ic', 0)}))
+
+    def at_next(t):
+        # the same term one iteration later: state := next state, ι := ι + 1 (which is not 0)
+        j = it.fresh_sym('ι′')
+        t2 = subst_term(t, dict(zip(syms, [sym('§%d' % k) for k in range(len(syms))])))
+        t2 = subst_term(t2, {i: j})
+        nz = {('icmp', 'eq', j, ('ic', 0)): False, ('icmp', 'ne', j, ('ic', 0)): True, ('icmp', 'lt', ('ic', 0), j): True,
+              ('icmp', 'gt', j, ('ic', 0)): True}
+        t2 = simp(t2, nz)
+        t2 = subst_term(t2, {sym('§%d' % k): nx for k, nx in enumerate(seq.next_state)})
+        from ..models import recanon
+        return canon(recanon(it, subst_term(t2, {j: it.iadd(i, one)})))
+    probs = []
+    if at_zero(Lx) != kx0 or at_zero(Ly) != ky0:
+        probs.append('the first piece starts at (%s, %s), expected knots[0]' % (term_str(at_zero(Lx))[:80], term_str(at_zero(Ly))[:80]))
+    Rxc, Ryc, Lxc = canon(Rx), canon(Ry), canon(Lx)
+    if Rxc not in (('fcall', 'max', Lxc, kx1), ('fcall', 'max', kx1, Lxc)):
+        probs.append('right abscissa is %s, expected max(left abscissa, knot x)' % term_str(Rxc)[:140])
+    if Ryc != ky1:
+        probs.append('right ordinate is %s, expected the knot\'s y' % term_str(Ryc)[:100])
+    if at_next(Lx) != Rxc or at_next(Ly) != Ryc:
+        probs.append('the next piece starts at (%s, %s), expected this piece\'s forced right knot' % (term_str(at_next(Lx))[:100], term_str(at_next(Ly))[:80]))
+    rep.ob('force', inst, not probs, '; '.join(probs) or 'L(0) = knots[0]; R = (max(L.x, k.x), k.y); L(ι+1) = R(ι)', fn=inst, file=file, line=line,
+           msg='; '.join(probs))
+    end = canon(got[2])
+    rep.ob('end', inst, end == Rxc, 'end of piece ι = forced abscissa', fn=inst, file=file, line=line,
+           msg='piece end is not the forced right abscissa')
+    # the segment helper itself is checked below (same identities as the inlined form)
+    rep.ob('seg', inst, True, 'piece ι = segment(L, R) by matching')
+
+
+def _why(k):
+    import os, sys
+    if os.environ.get('VERIF_DEBUG_LOOP'):
+        sys.stderr.write('C06 general_pairs: shape test %d failed\n' % k)
+    return False
+
+
+def general_pairs(cx, rep, inst, file, line, flin, it, st, seq, K):
+    """linear() in two passes: first the forced knots K′ (K′[0] = knots[0]; K′[j+1] = (max(K′[j].x, knots[j+1].x), knots[j+1].y),
+    an in-place recurrence over a copy of the knots), then one piece per neighbouring pair (K′[ι], K′[ι+1]).
+    Returns False when the value does not have that shape at all (the caller reports it)."""
+    from ..terms import match_term
+    from ..models import recanon
+    fseg = helper_by_role(cx.facts, flin, ['poly::Knot', 'poly::Knot'], ('piecewise::Segment', 'poly::Poly1'), 'linear::segment')
+    if fseg is None:
+        return _why(1)
+    # the source: zip(K′, K′ skip 1) over one stored vector K′
+    s = seq.src
+    while isinstance(s, Stream) and s.kind in ('map', 'cloned', 'enumerate'):
+        s = s.parts[0]
+    if not (isinstance(s, Stream) and s.kind == 'zip'):
+        return _why(2)
+
+    def view(x):
+        skip = 0
+        while isinstance(x, Stream) and x.kind in ('cloned', 'skip'):
+            if x.kind == 'skip':
+                if x.parts[1][0] != 'ic':
+                    return None
+                skip += x.parts[1][1]
+            x = x.parts[0]
+        if isinstance(x, Stream) and x.kind == 'src' and isinstance(x.parts[0], SliceRef) and x.parts[0].start[0] == 'ic':
+            sl = x.parts[0]
+            return (sl.root, sl.path, sl.start[1] + skip, sl.end)
+        return None
+    va, vb = view(s.parts[0]), view(s.parts[1])
+    if va is None or vb is None or va[:2] != vb[:2] or (va[2], vb[2]) != (0, 1):
+        return _why(3)
+    pth = va[1][:-1] if va[1] and va[1][-1] == ('seq',) else va[1]
+    Kp = None
+    for st_try in [st] + [State(e_['store'], (), frozenset()) for e_ in it.events if e_['kind'] == 'collect' and e_.get('seq') is seq and 'store' in e_]:
+        try:
+            Kp = it.read(st_try, va[0], pth)
+            break
+        except Unsupported:
+            continue
+    if Kp is None:
+        return _why(4)
+    if isinstance(Kp, VecV):
+        Kp = Kp.seq
+    # a guard that the entry assertion (at least two knots) already decides
+    from .panics import entails
+    from ..terms import mk_not
+    for _ in range(3):
+        if isinstance(Kp, SelV):
+            facts_ = [('icmp', 'ge', ('len', K), ('ic', 2))]
+            if entails(facts_, Kp.cond):
+                Kp = Kp.a
+            elif entails(facts_, mk_not(Kp.cond)):
+                Kp = Kp.b
+            else:
+                break
+    if not (isinstance(Kp, SeqConcat) and len(Kp.parts) == 2 and isinstance(Kp.parts[0], SeqLit) and len(Kp.parts[0].elems) == 1
+            and isinstance(Kp.parts[1], SeqScan)):
+        return _why(5)
+    scan = Kp.parts[1]
+    nfl = NF()
+    probs = []
+    lenK = ('len', K)
+    if not (nfl(it.seq_len(Kp)).equals(nfl(lenK)) and va[3] == it.seq_len(Kp) or nfl(va[3]).equals(nfl(lenK))):
+        probs.append('the forced knots are not one per knot')
+    from .c02 import reduce_index
+    from .c04 import int_simplify
+    n_red = reduce_index(int_simplify(seq.n, nfl, {lenK: 2}), frozenset({('icmp', 'ge', lenK, ('ic', 2))})) if seq.n is not None else None
+    if n_red is None or not nfl(n_red).equals(nfl(lenK) - RF.const(1)):
+        probs.append('number of pieces is %s, expected len − 1' % (term_str(seq.n) if seq.n else '?'))
+    first = it.abstract(st, Kp.parts[0].elems[0])
+    if first != ('struct', 'poly::Knot', ('elem', K, ('ic', 0), 'x'), ('elem', K, ('ic', 0), 'y')):
+        probs.append('the first forced knot is %s, expected knots[0]' % term_str(first)[:120])
+    rep.ob('scan', inst, not probs, '; '.join(probs) or 'pieces are built on the neighbouring pairs of one forced-knot vector; len−1 pieces in order',
+           fn=inst, file=file, line=line, msg='; '.join(probs))
+    # the piece on (K′[ι], K′[ι+1])
+    a = cx.analyse(fseg, arg_names=['knot0', 'knot1'])
+    pat = a.it.abstract(a.state, a.ret)
+    vars_ = {sym(n_) for n_ in ('knot0.x', 'knot0.y', 'knot1.x', 'knot1.y')}
+    i = seq.ivar
+    got = it.abstract(st, seq.elem)
+    binds = {}
+    if not (match_term(pat, got, binds, vars_) and len(binds) == 4):
+        rep.ob('force', inst, False, 'a piece is not segment(left knot, right knot)', fn=inst, file=file, line=line)
+        return True
+    one = ('ic', 1)
+    kx1, ky1 = ('elem', K, it.iadd(i, one), 'x'), ('elem', K, it.iadd(i, one), 'y')
+
+    def canon(t):
+        t = recanon(it, t)
+        m = {}
+        for x in subterms(t):
+            if x[0] == 'elem' and x[1] == K:
+                for want in (('ic', 0), i, it.iadd(i, one)):
+                    if x[2] != want and nfl(x[2]).equals(nfl(want)):
+                        m[x] = ('elem', K, want, x[3])
+            if x[0] == 'scanst':
+                for want in (('ic', 0), it.isub(i, one), i):
+                    if x[3] != want and nfl(x[3]).equals(nfl(want)):
+                        m[x] = x[:3] + (want,)
+        return subst_term(t, m) if m else t
+    fprobs = []
+    for case in ('first', 'later'):
+        conds = {}
+        for t0 in subterms(got):
+            if t0[0] == 'icmp' and i not in set(subterms(t0)) and ('len', K) in set(subterms(t0)):
+                # a test on the number of knots that the entry assertion (≥ 2) decides
+                from .panics import entails
+                from ..terms import mk_not
+                facts_ = [('icmp', 'ge', ('len', K), ('ic', 2))]
+                if entails(facts_, t0):
+                    conds[t0] = True
+                elif entails(facts_, mk_not(t0)):
+                    conds[t0] = False
+            if t0[0] == 'icmp' and i in set(subterms(t0)):
+                # every position test on ι is decided by the case: ι = 0, or ι ≥ 1
+                lhs = nfl(t0[2]) - nfl(t0[3])
+                iv_ = nfl(i)
+                d = lhs - iv_        # t0 compares ι + d with 0
+                if d.is_const():
+                    dv = d.const_value()
+                    lo = dv if case == 'first' else dv + 1          # value (first) / lower bound (later) of ι + d
+                    op = t0[1]
+                    if case == 'first':
+                        conds[t0] = {'lt': lo < 0, 'le': lo <= 0, 'gt': lo > 0, 'ge': lo >= 0, 'eq': lo == 0, 'ne': lo != 0}[op]
+                    elif lo > 0:
+                        conds[t0] = {'lt': False, 'le': False, 'gt': True, 'ge': True, 'eq': False, 'ne': True}[op]
+                    elif lo == 0:
+                        if op in ('lt',):
+                            conds[t0] = False
+                        elif op == 'ge':
+                            conds[t0] = True
+
+        def view_case(t):
+            t = simp(t, conds)
+            if case == 'first':
+                t = subst_term(t, {i: ('ic', 0)})
+            t = canon(t)
+            t = it.unfold_scan_state(t, positive=(i,) if case == 'later' else ())
+            return canon(t)
+        Lx, Ly, Rx, Ry = (view_case(binds[sym(n_)]) for n_ in ('knot0.x', 'knot0.y', 'knot1.x', 'knot1.y'))
+        k1x = view_case(kx1)
+        k1y = view_case(ky1)
+        if case == 'first' and (Lx, Ly) != (('elem', K, ('ic', 0), 'x'), ('elem', K, ('ic', 0), 'y')):
+            fprobs.append('the first piece starts at (%s, %s), expected knots[0]' % (term_str(Lx)[:80], term_str(Ly)[:80]))
+        if Rx not in (('fcall', 'max', Lx, k1x), ('fcall', 'max', k1x, Lx)):
+            fprobs.append('%s pieces: right abscissa is %s, expected max(left abscissa %s, knot x)' % (case, term_str(Rx)[:140], term_str(Lx)[:100]))
+        if Ry != k1y:
+            fprobs.append('%s pieces: right ordinate is %s, expected the knot\'s y' % (case, term_str(Ry)[:100]))
+        end = view_case(got[2])
+        if end != Rx:
+            fprobs.append('%s pieces: end is %s, expected the forced right abscissa' % (case, term_str(end)[:100]))
+    rep.ob('force', inst, not fprobs, '; '.join(fprobs) or 'K′[0] = knots[0]; K′[ι+1] = (max(K′[ι].x, k.x), k.y); piece ι on (K′[ι], K′[ι+1])',
+           fn=inst, file=file, line=line, msg='; '.join(fprobs))
+    rep.ob('end', inst, not any('end is' in p_ for p_ in fprobs), 'end of piece ι = forced abscissa', fn=inst, file=file, line=line,
+           msg='piece end is not the forced right abscissa')
+    rep.ob('seg', inst, True, 'piece ι = segment(K′[ι], K′[ι+1]) by matching')
+    return True
+
+
 def find(cx, path):
     return cx.facts.fn(path) if cx.facts.has_fn(path) else None
 
@@ -84,6 +360,8 @@ def check(cx):
         r = a.ret
         K = ('seq', 'knots')
         seq = r.fields[0].seq if isinstance(r, Struct) and r.path == 'piecewise::Piecewise' and isinstance(r.fields[0], VecV) else None
+        if isinstance(seq, SeqMap) and general_pairs(cx, rep, inst, file, line, flin, it, st, seq, K):
+            return
         if not isinstance(seq, SeqScan):
             rep.ob('scan', inst, False, 'segments are not a recurrence over the knots (%s)' % type(seq).__name__, fn=inst, file=file, line=line,
                    msg='linear() does not build its pieces by one pass over the knots carrying the previous knot (%s)' % type(seq).__name__)
@@ -101,15 +379,20 @@ def check(cx):
             except Unsupported:
                 ok_src = False
         if not ok_src:
+            ok_src = pairs_source(it, st, seq.src, K)
+        if not ok_src:
             probs.append('the pass is not over knots[1..] in order')
         nfl = NF()
-        if seq.n is None or not nfl(seq.n).equals(nfl(('len', K)) - RF.const(1)):
+        from .c02 import reduce_index
+        from .c04 import int_simplify
+        n_red = reduce_index(int_simplify(seq.n, nfl, {('len', K): 2}), frozenset({('icmp', 'ge', ('len', K), ('ic', 2))})) if seq.n is not None else None
+        if n_red is None or not nfl(n_red).equals(nfl(('len', K)) - RF.const(1)):
             probs.append('number of pieces is %s, expected len − 1' % (term_str(seq.n) if seq.n else '?'))
         rep.ob('scan', inst, not probs, '; '.join(probs) or 'one pass over knots[1..] carrying the previous knot; len−1 pieces in order',
                fn=inst, file=file, line=line, msg='; '.join(probs))
         xy = state_xy(seq)
         if xy is None:
-            rep.ob('force', inst, False, 'carried state is not one knot (x, y)', fn=inst, file=file, line=line)
+            general_recurrence(cx, rep, inst, file, line, flin, it, st, seq, K)
             return
         sx, sy, ix, iy, nx, ny = xy
         idx = it.iadd(('ic', 1), seq.ivar)
